@@ -312,6 +312,9 @@ func reference(c Case) expect {
 // simulate is the reference dispatcher: walk the registrations from index `from` in registration order. With
 // anyCursor=false it is deterministic (the statement's semantics). With anyCursor=true it enumerates, at each *method*
 // override, every possible continuation index - the behaviour class of open finding C01-F3 - and returns all outcomes.
+// pruneTo, when set (classification only), abandons every branch whose trace is not a prefix of it.
+var pruneTo []string
+
 func simulate(c Case, fl []flat, from int, method, path string, endpoint bool, e expect, anyCursor bool, depth int) []expect {
 	e.trace = append([]string(nil), e.trace...)
 	for i := from; i < len(fl); i++ {
@@ -325,6 +328,9 @@ func simulate(c Case, fl []flat, from int, method, path string, endpoint bool, e
 		}
 		for _, h := range f.hs {
 			e.trace = append(e.trace, h.ID)
+			if pruneTo != nil && (len(e.trace) > len(pruneTo) || pruneTo[len(e.trace)-1] != h.ID) {
+				return nil
+			}
 			switch h.Act {
 			case "stop":
 				e.status = 200
@@ -337,7 +343,7 @@ func simulate(c Case, fl []flat, from int, method, path string, endpoint bool, e
 				e.overridden = "path"
 			case "method":
 				e.overridden = "method"
-				if anyCursor && h.Arg != method && depth < 3 {
+				if anyCursor && h.Arg != method && (depth < 3 || pruneTo != nil && depth < 12) {
 					var outs []expect
 					for j := 0; j <= len(fl); j++ {
 						outs = append(outs, simulate(c, fl, j, h.Arg, path, endpoint, e, true, depth+1)...)
@@ -410,6 +416,11 @@ func classify(c Case, fail string) string {
 		return ""
 	}
 	got := run(c)
+	pruneTo = got.trace
+	if pruneTo == nil {
+		pruneTo = []string{}
+	}
+	defer func() { pruneTo = nil }()
 	for _, o := range simulate(c, fl, 0, c.Method, c.Path, false, expect{}, true, 0) {
 		if strings.Join(o.trace, ",") == strings.Join(got.trace, ",") && o.status == got.status && o.allow == got.allow {
 			return "C01-c"
